@@ -326,6 +326,7 @@ impl Property for C04 {
             },
             shape: h.0,
             est_len: 100,
+            min_quantum: 0,
         }
     }
     fn monitor(&self, _scn: &Scenario) -> Box<dyn Monitor + Send> {
